@@ -546,7 +546,7 @@ class RunLengthEncoding(Encoding):
         return np.array(tuple(runlength.rle_mask(self._data, mask)), dtype=self._dtype)
 
     def get_value(self, index):
-        for value in self.sorted_gather((index,)):
+        for value in self.sorted_gather(np.reshape(index, (-1,))):
             return np.asanyarray(value, dtype=self._dtype)
 
     def copy(self):
